@@ -312,6 +312,50 @@ def fifo_rule(ck, facts, fns):
     return n
 
 
+def partial_write_hits(fn):
+    """calls to io::Write::write whose returned byte count is never looked at (the value is only `?`-ed / mapped / dropped)"""
+    from c19 import tainted_locals
+    out = []
+    for bi, t in fn.calls():
+        if not call_name_matches(t, r"io::Write::write$|io::Write>::write$") or len(t["dest"]) != 1:
+            continue
+        taint = tainted_locals(fn, {t["dest"][0]})
+        used = False
+        for b in fn.blocks:
+            for st in b["s"]:
+                # the count is used when a usize derived from the result takes part in arithmetic, a comparison or an index
+                if st[0] == "=" and st[2][0] in ("bin",) and any(o[0] != "k" and o[1][0] in taint for o in st[2][2:4]):
+                    used = True
+            tt = b["t"]
+            if tt["t"] == "call" and tt is not t and call_name_matches(tt, r"ops::Index|ops::Range|slice::|usize") and \
+                    any(a[0] != "k" and a[1][0] in taint and fn.locals[a[1][0]]["ty"] == "usize" for a in tt["args"]):
+                used = True
+        for l in taint:
+            if fn.locals[l]["ty"] == "usize":
+                for b in fn.blocks:
+                    for st in b["s"]:
+                        if st[0] == "=" and st[2][0] == "agg" and any(o[0] != "k" and o[1][0] == l for o in st[2][2]):
+                            used = True      # e.g. RangeFrom { start: n }
+        if not used:
+            out.append((bi, t))
+    return out
+
+
+def partial_write_rule(ck, facts, fns):
+    """R15.8: what is handed to the writer is written completely: no `io::Write::write` whose byte count is ignored (a short
+    write silently truncates the output while Ok is returned); `write_all`, or a loop that advances by the count."""
+    n = 0
+    for fn in fns:
+        for bi, t in partial_write_hits(fn):
+            root = fn if fn.kind != "Closure" else facts.fns.get(fn.root, fn)
+            ck.bad("R15.8", "R15.8@%s#partial-write" % root.name, "%s calls io::Write::write and ignores the number of bytes written: a writer "
+                   "that accepts fewer bytes per call receives a truncated output and the serializer still returns Ok" % root.name,
+                   "%s:%s" % (t["file"], t["line"]))
+        n += sum(1 for _, t in fn.calls() if call_name_matches(t, r"io::Write::write_all$|io::Write>::write_all$|io::Write::write_fmt$"))
+    ck.ok("R15.8", "no io::Write::write with an ignored byte count", "%d write_all / write_fmt calls in scope" % n, nontrivial=False)
+    return n
+
+
 def run(ck, facts, tier):
     facts.require_crates(["sophia_api", "sophia_rio", "sophia_turtle", "sophia_inmem", "sophia_xml", "sophia_jsonld"])
     import core
@@ -347,6 +391,10 @@ def run(ck, facts, tier):
     ck.floor("R15.6", "functions swapping a buffer out of self", n, 2)
     n = fifo_rule(ck, facts, fns)
     ck.floor("R15.7", "functions that fill and drain a buffer of items", n, 2)
+    for name, expect in (("pos_partial_write", True), ("neg_write_all", False), ("neg_write_loop", False)):
+        ck.control("R15.8", name, bool(partial_write_hits(core.fixture_fn(name))), expect)
+    n = partial_write_rule(ck, facts, fns)
+    ck.floor("R15.8", "write_all / write_fmt calls in the serializers", n, 20)
     fx = core.fixture_facts()
     pr = core.Probe()
     fifo_rule(pr, fx, [core.fixture_fn("Buffered::pos_lifo_next"), core.fixture_fn("Buffered::neg_fifo_next")])
